@@ -66,6 +66,15 @@ CHECKS = {
         'note': _NOTE + ' This check also decides the end-to-end half of C06 (flux = sum F R, errors in quadrature).',
         'technique': 'TLA+ spec (order_to_match permutation algebra + exact convolution) + TLC exhaustive; replay through convolve_model_dir on real packages of both formats',
     },
+    'C08': {
+        'text': 'MC_Planted.tla (on FitKernel): photometry synthesised on the lattice from model mp at (A_V0, scale) or at grid distance i0; TLC checks PlantedRecovered for 3 grids x 2 extinction patterns x every planted model x 4 planted (A_V0, scale) x 3 relative errors x '
+                '{aperture-independent, distance grid x 3 planted distances}: chi^2 = 0 exactly at the planted parameters, the planted distance is the unique grid minimum, and every other model has chi^2 > 0 whenever the grid is non-degenerate -- '
+                'non-degeneracy (no model in another\'s span of reddening + scaling) is computed by the spec.  Replay runs the WHOLE chain on real files: SED package (per-file or cube, random table permutation, storage orders, library or raw writer) with SEDs constant over each '
+                'normalised filter\'s support -> convolve_model_dir -> data file -> fit() -> first record of the fit file -> write_parameters first row (model, chi^2, A_V, scale, the model\'s own parameter row).',
+        'ref': 'DESIGN.md section 6 C08',
+        'note': _NOTE + ' Planted A_V0 and scale are multiples of 1.25 mag and 1/8 dex so that the photometry stays on the quarter-dex lattice.',
+        'technique': 'TLA+ spec (FitKernel + computed non-degeneracy) + TLC; end-to-end replay of the full pipeline on real packages',
+    },
     'C09': {
         'text': 'Post.tla (on FitSession): the algorithm layer is FitInfo.filter_table\'s index arithmetic (subset of a table by the kept names, argsort(argsort(names))); TLC checks for 4 sources x record lengths 0..4 x 8 selectors x all 24 '
                 'parameter-file row orders that with a name-sorted table the row attached to fit i is the row of the model named in fit i (RowsFollowRanking) and that without the sort this fails exactly when the file is not already sorted (SortIsNeeded).  '
